@@ -1,6 +1,6 @@
 """C03 -- generalized symmetric solvers: pencil eigenpairs, B-orthonormal vectors (structural clauses)."""
 from .facts import AnalysisBroken
-from . import factorization as fz, c04, c11, paths
+from . import factorization as fz, c04, c11, paths, eigsbase
 from .sym import sym, show
 
 EXPLANATION = (
@@ -17,7 +17,7 @@ EXPLANATION = (
     'container\'s element and before the factorization member that is built from that reference (no dangling operator). '
     '(D5) the stored matrix of a wrapper with a triangle option is consumed only by triangle views, triangle-aware factorizations, '
     'size queries or element access (shared with C11). '
-    'Does NOT decide residual sizes, B-orthonormality level, or the effect of conditioning.')
+    'Every reader of the stored Ritz values / estimates / vectors in compute() is preceded on every path from entry by the member that rebuilds them from H under the selection rule of this call (a compute() that follows another compute() never works on the re-ordered, possibly back-transformed values the earlier call left). Does NOT decide residual sizes, B-orthonormality level, or the effect of conditioning.')
 ASSUMPTIONS = c04.ASSUMPTIONS + ['DenseCholesky / SparseCholesky solve with the factor of the matrix they were given (C11)']
 
 MODE_TABLE = {
@@ -181,3 +181,4 @@ def run(ctx):
     c11.shift_invert_typestate(ctx)
     c11.stored_matrix_consumers(ctx)
     rvalue_operator_lifetime(ctx)
+    eigsbase.ritz_data_of_current_call(ctx, 'Spectra::HermEigsBase')
